@@ -61,9 +61,11 @@ class COOData:
         local = self.data.reshape(self.local_shape[::-1] + (-1,),
                                   order='C').T
         if basis is not None:
-            out = np.zeros((basis.mesh.nfacets,) + local.shape[1:])
-            out[basis.find] = local
-            local = np.sum(out[basis.mesh.t2f], axis=0)
+            # add each facet matrix to the element it was evaluated in
+            out = np.zeros((basis.mesh.nelements,) + local.shape[1:],
+                           dtype=local.dtype)
+            np.add.at(out, basis.tind, local)
+            local = out
 
         return local
 
